@@ -30,8 +30,9 @@ FineVerdict(P) ==
       badq == {q \in 0..NQ(P) - 1 :
                  LET a == PerQubit(A, q)  b == PerQubit(B, q) IN
                  \/ Len(a) # Len(b)
-                 \/ \E i \in 1..Len(a) : \/ Len(a[i].f) # Len(b[i].f)
-                                         \/ \E j \in 1..Len(a[i].f) : ~FineClose(a[i].f[j], b[i].f[j])}
+                 \/ \E i \in 1..Len(a) : ~IsHalfPiName(a[i].g) /\      \* XX/YY/ZZ are spelled with a literal "pi/2"
+                                         (\/ Len(a[i].f) # Len(b[i].f)
+                                          \/ \E j \in 1..Len(a[i].f) : ~FineClose(a[i].f[j], b[i].f[j]))}
   IN IF badq = {} THEN <<"ok", "", "", "">> ELSE <<"roundtrip-precision-lost", "param", "none", "">>
 
 Rename(v, clause) == IF v[1] = "ok" THEN v ELSE <<clause, v[2], v[3], v[4]>>
